@@ -136,12 +136,12 @@ Lemma get_resource_eq uri reqs ok s :
 Proof.
   cbn [get_resource]. destruct (rlookup uri (resources s)); [reflexivity|].
   destruct (create_resource uri s) as [r s1].
-  match goal with |- context [(fix run (l : list (Z * Z * script)) (s0 : rset) {struct l} : bool * rset := _) reqs s1] =>
-    set (F := (fix run (l : list (Z * Z * script)) (s0 : rset) {struct l} : bool * rset := _)) end.
+  match goal with |- context [(fix run (l : list (Z * Z * Z * script)) (s0 : rset) {struct l} : bool * rset := _) reqs s1] =>
+    set (F := (fix run (l : list (Z * Z * Z * script)) (s0 : rset) {struct l} : bool * rset := _)) end.
   assert (E : forall l s0, F l s0 = run_requests l s0).
-  { induction l as [|[[o n] sc'] l IH]; intros s0; [reflexivity|].
+  { induction l as [|[[[o on] n] sc'] l IH]; intros s0; [reflexivity|].
     cbn [run_requests]. subst F. cbn beta iota. fold (get_resource n sc' s0).
-    destruct (rmem o (resources s0) || rmem n (resources s0)); [apply IH|].
+    destruct (can_resolve o on s0 || rmem n (resources s0)); [apply IH|].
     destruct (get_resource n sc' s0) as [[r'|] s']; [apply IH | reflexivity]. }
   rewrite E. reflexivity.
 Qed.
@@ -155,7 +155,7 @@ Section ScriptInd.
     match sc with
     | Script reqs ok =>
       step reqs ok
-        ((fix go (l : list (Z * Z * script)) : Forall (fun x => P (snd x)) l :=
+        ((fix go (l : list (Z * Z * Z * script)) : Forall (fun x => P (snd x)) l :=
             match l with
             | [] => Forall_nil _
             | x :: rest =>
@@ -199,26 +199,28 @@ Lemma run_spec reqs :
     let (b, s') := run_requests reqs s in
     wf s' /\ exists added, grows s s' added.
 Proof.
-  induction reqs as [|[[o n] sc'] reqs IH]; intros HF s Hwf.
+  induction reqs as [|[[[o on] n] sc'] reqs IH]; intros HF s Hwf.
   - simpl. split; [exact Hwf|]. exists []. repeat split.
     + rewrite app_nil_r. reflexivity.
     + intros k v [].
     + lia.
   - inversion HF as [|? ? Hsc HF']; subst. simpl in Hsc.
     cbn [run_requests].
-    destruct (rmem o (resources s) || rmem n (resources s)) eqn:Hm.
+    destruct (can_resolve o on s || rmem n (resources s)) eqn:Hm.
     + exact (IH HF' s Hwf).
-    + apply orb_false_iff in Hm. destruct Hm as [Ho Hn].
+    + apply orb_false_iff in Hm. destruct Hm as [Hc Hn]. unfold can_resolve in Hc.
+      apply orb_false_iff in Hc. destruct Hc as [_ Ho].
       apply rmem_false in Ho. apply rmem_false in Hn.
       pose proof (Hsc n s Hwf (proj2 (rlookup_None _ _) Hn)) as Hp.
       destruct (get_resource n sc' s) as [[r'|] s1]; simpl in Hp.
       * destruct Hp as [Hwf1 [Hlt [added1 [[Hr1 [Hv1 Hn1]] [Er [more Em]]]]]].
         (* the alias step *)
-        set (s2 := if o =? n then s1 else alias o r' s1).
+        set (s2 := keep_alias o on n r' s1).
         assert (Hwf2 : wf s2).
-        { subst s2. destruct (o =? n); [exact Hwf1|]. apply wf_alias; [exact Hwf1 | lia]. }
+        { subst s2. unfold keep_alias. destruct ((o =? n) || can_resolve o on s1); [exact Hwf1|].
+          apply wf_alias; [exact Hwf1 | lia]. }
         assert (G2 : exists added2, grows s s2 added2).
-        { subst s2. destruct (o =? n).
+        { subst s2. unfold keep_alias. destruct ((o =? n) || can_resolve o on s1).
           - exists added1. repeat split; assumption.
           - exists (rset_key o r' added1). unfold grows. simpl. repeat split.
             + rewrite Hr1. apply rset_key_app. exact Ho.
